@@ -49,7 +49,7 @@ template<class W>
 using CycleList = std::list<std::list<typename vb::Built<W>::Edge>>;
 
 template<class W>
-W run_exact(int variant, const vb::Built<W> &b, CycleList<W> &cycles) {
+W run_exact(int variant, vb::Built<W> &b, CycleList<W> &cycles) {
     auto wm = boost::get(boost::edge_weight, b.g);
     auto out = std::back_inserter(cycles);
     switch (variant) {
@@ -66,7 +66,7 @@ W run_exact(int variant, const vb::Built<W> &b, CycleList<W> &cycles) {
 }
 
 template<class W>
-W run_approx(int variant, const vb::Built<W> &b, std::size_t k, CycleList<W> &cycles) {
+W run_approx(int variant, vb::Built<W> &b, std::size_t k, CycleList<W> &cycles) {
     auto wm = boost::get(boost::edge_weight, b.g);
     auto out = std::back_inserter(cycles);
     switch (variant) {
